@@ -337,6 +337,15 @@ func oracleSchemaRow(idx int, line []byte, schemas []schemaUnderTest, col *colle
 			verdicts["ValidateData(json)"] = su.s.ValidateData(row.Doc) == nil
 			verdicts["ValidateFile(.json)"] = su.s.ValidateFile(jf) == nil
 			verdicts["ValidateReader(json)"] = su.s.ValidateReader(bytes.NewReader(row.Doc)) == nil
+			// the same document in another legal JSON spelling: "/" written as "\/" ('/' occurs in strings only)
+			if esc := bytes.ReplaceAll(row.Doc, []byte("/"), []byte("\\/")); !bytes.Equal(esc, row.Doc) && !bytes.Contains(row.Doc, []byte("\\")) {
+				verdicts["ValidateData(json, escaped solidus)"] = su.s.ValidateData(esc) == nil
+				verdicts["ValidateReader(json, escaped solidus)"] = su.s.ValidateReader(bytes.NewReader(esc)) == nil
+				ef := jf + ".esc.json"
+				if os.WriteFile(ef, esc, 0o644) == nil {
+					verdicts["ValidateFile(.json, escaped solidus)"] = su.s.ValidateFile(ef) == nil
+				}
+			}
 			_, rerr := su.s.ReadAndValidate(bytes.NewReader(row.Doc))
 			verdicts["ReadAndValidate(json)"] = rerr == nil
 			var generic interface{}
